@@ -44,13 +44,18 @@ type c05tail struct {
 }
 
 type c05case struct {
-	ID      int         `json:"id"`
-	Via     string      `json:"via"`
-	Rbuf    uint32      `json:"rbuf"`      // configured ReceiveBufSize of the receiving side
-	PeerSnd uint32      `json:"peer_send"` // send buffer size the peer announces in its HEL / ACK (listener, dialer)
-	RbufEff uint32      `json:"rbuf_conn"` // Conn.ReceiveBufSize() after the handshake (observed)
-	Stream  string      `json:"stream"`    // hex
-	Segs    []int       `json:"segs"`      // write sizes (sum = len(stream))
+	ID      int    `json:"id"`
+	Via     string `json:"via"`
+	Rbuf    uint32 `json:"rbuf"`      // configured ReceiveBufSize of the receiving side
+	PeerSnd uint32 `json:"peer_send"` // send buffer size the peer announces in its HEL / ACK (listener, dialer)
+	RbufEff uint32 `json:"rbuf_conn"` // Conn.ReceiveBufSize() after the handshake(s) (observed)
+	// listener only: Hellos (recv, send) of further clients that connect to the SAME listener after the connection
+	// under test is established and before any frame is sent on it; they must not change its limits
+	Later   [][2]uint32 `json:"later_hellos,omitempty"`
+	OwnSnd  uint32      `json:"own_send,omitempty"` // dialer only: the client's own SendBufSize (0 = 65535); must not affect what it accepts
+	NilAck  bool        `json:"nil_ack,omitempty"`  // listener created with ack = nil (uacp.DefaultServerACK), rbuf must be 65535
+	Stream  string      `json:"stream"`             // hex
+	Segs    []int       `json:"segs"`               // write sizes (sum = len(stream))
 	SegKind string      `json:"segkind"`
 	PauseUS int         `json:"pause_us"`
 	Calls   int         `json:"calls"`  // max number of Receive calls
@@ -110,7 +115,10 @@ func receiveOnce(c *uacp.Conn) (res c05result) {
 }
 
 // pair returns the receiving uacp.Conn and the raw writer end.
-func pair(via string, rbuf, peerSend uint32) (*uacp.Conn, *net.TCPConn, error) {
+// laterConns: connections of the further clients of the current case (closed when the case is over)
+var laterConns []io.Closer
+
+func pair(via string, rbuf, peerSend, ownSend uint32, later [][2]uint32, nilAck bool) (*uacp.Conn, *net.TCPConn, error) {
 	if peerSend == 0 {
 		peerSend = 65535
 	}
@@ -134,7 +142,11 @@ func pair(via string, rbuf, peerSend uint32) (*uacp.Conn, *net.TCPConn, error) {
 		c, err := uacp.NewConn(r.(*net.TCPConn), &uacp.Acknowledge{ReceiveBufSize: rbuf, SendBufSize: 65535})
 		return c, w.(*net.TCPConn), err
 	case "listener":
-		l, err := uacp.Listen(ctx, "opc.tcp://127.0.0.1:0/x", &uacp.Acknowledge{ReceiveBufSize: rbuf, SendBufSize: 65535, MaxChunkCount: 7, MaxMessageSize: 77777})
+		srvAck := &uacp.Acknowledge{ReceiveBufSize: rbuf, SendBufSize: 65535, MaxChunkCount: 7, MaxMessageSize: 77777}
+		if nilAck {
+			srvAck = nil
+		}
+		l, err := uacp.Listen(ctx, "opc.tcp://127.0.0.1:0/x", srvAck)
 		if err != nil {
 			return nil, nil, err
 		}
@@ -143,31 +155,46 @@ func pair(via string, rbuf, peerSend uint32) (*uacp.Conn, *net.TCPConn, error) {
 			c   *uacp.Conn
 			err error
 		}
-		ch := make(chan acc, 1)
-		go func() { c, err := l.Accept(ctx); ch <- acc{c, err} }()
-		w, err := net.Dial("tcp", l.Addr().String())
+		// connect performs one client's HEL/ACK exchange against the listener
+		connect := func(helRecv, helSend uint32) (*uacp.Conn, *net.TCPConn, error) {
+			ch := make(chan acc, 1)
+			go func() { c, err := l.Accept(ctx); ch <- acc{c, err} }()
+			w, err := net.Dial("tcp", l.Addr().String())
+			if err != nil {
+				return nil, nil, err
+			}
+			// a minimal Hello: version, rcv, snd, maxmsg, maxchunks, null endpoint url (32 bytes)
+			hel := make([]byte, 24)
+			binary.LittleEndian.PutUint32(hel[4:], helRecv)
+			binary.LittleEndian.PutUint32(hel[8:], helSend)
+			binary.LittleEndian.PutUint32(hel[20:], 0xffffffff)
+			if _, err := w.Write(mkFrame("HEL", 'F', hel)); err != nil {
+				return nil, nil, err
+			}
+			ack := make([]byte, 28)
+			w.SetReadDeadline(time.Now().Add(dl(5 * time.Second)))
+			if _, err := io.ReadFull(w, ack); err != nil {
+				return nil, nil, fmt.Errorf("reading ACK: %v", err)
+			}
+			w.SetReadDeadline(time.Time{})
+			if string(ack[:4]) != "ACKF" {
+				return nil, nil, fmt.Errorf("expected ACKF, got %q", ack[:4])
+			}
+			a := <-ch
+			return a.c, w.(*net.TCPConn), a.err
+		}
+		c, w, err := connect(65535, peerSend)
 		if err != nil {
 			return nil, nil, err
 		}
-		// a minimal Hello: version, rcv, snd, maxmsg, maxchunks, null endpoint url (32 bytes)
-		hel := make([]byte, 24)
-		binary.LittleEndian.PutUint32(hel[4:], 65535)
-		binary.LittleEndian.PutUint32(hel[8:], peerSend)
-		binary.LittleEndian.PutUint32(hel[20:], 0xffffffff)
-		if _, err := w.Write(mkFrame("HEL", 'F', hel)); err != nil {
-			return nil, nil, err
+		for _, h := range later { // further clients on the same listener; kept open until the case is over
+			c2, w2, err := connect(h[0], h[1])
+			if err != nil {
+				return nil, nil, fmt.Errorf("later client %v: %v", h, err)
+			}
+			laterConns = append(laterConns, c2, w2)
 		}
-		ack := make([]byte, 28)
-		w.SetReadDeadline(time.Now().Add(dl(5 * time.Second)))
-		if _, err := io.ReadFull(w, ack); err != nil {
-			return nil, nil, fmt.Errorf("reading ACK: %v", err)
-		}
-		w.SetReadDeadline(time.Time{})
-		if string(ack[:4]) != "ACKF" {
-			return nil, nil, fmt.Errorf("expected ACKF, got %q", ack[:4])
-		}
-		a := <-ch
-		return a.c, w.(*net.TCPConn), a.err
+		return c, w, nil
 	case "dialer":
 		ln, err := net.Listen("tcp", "127.0.0.1:0")
 		if err != nil {
@@ -206,7 +233,10 @@ func pair(via string, rbuf, peerSend uint32) (*uacp.Conn, *net.TCPConn, error) {
 			}
 			ch <- acc{w.(*net.TCPConn), nil}
 		}()
-		d := &uacp.Dialer{ClientACK: &uacp.Acknowledge{ReceiveBufSize: rbuf, SendBufSize: 65535}}
+		if ownSend == 0 {
+			ownSend = 65535
+		}
+		d := &uacp.Dialer{ClientACK: &uacp.Acknowledge{ReceiveBufSize: rbuf, SendBufSize: ownSend}}
 		c, err := d.Dial(ctx, "opc.tcp://"+ln.Addr().String())
 		a := <-ch
 		if err == nil {
@@ -223,12 +253,18 @@ func runC05(cs *c05case) {
 		cs.Setup = err.Error()
 		return
 	}
-	c, w, err := pair(cs.Via, cs.Rbuf, cs.PeerSnd)
+	c, w, err := pair(cs.Via, cs.Rbuf, cs.PeerSnd, cs.OwnSnd, cs.Later, cs.NilAck)
 	if err != nil {
 		cs.Setup = err.Error()
 		return
 	}
 	cs.RbufEff = c.ReceiveBufSize()
+	defer func() {
+		for _, x := range laterConns {
+			x.Close()
+		}
+		laterConns = nil
+	}()
 	defer c.Close()
 	defer w.Close()
 	w.SetNoDelay(true)
@@ -456,10 +492,28 @@ func genC05(r *rng.R, id int) *c05case {
 		if cs.Via == "listener" && int(cs.PeerSnd) < rb {
 			eff = int(cs.PeerSnd)
 		}
+		if cs.Via == "dialer" && id%4 == 1 {
+			cs.OwnSnd = uint32(r.Pick(8192, 8192, 9000, 65535)) // asymmetric client: small send buffer, larger receive buffer
+		}
+	}
+	if cs.Via == "listener" && id%3 == 2 {
+		// several clients on one listener: the connection under test is established first (client 65535/65535),
+		// then clients with other (asymmetric) buffers connect; frames go up to the first connection's limit
+		cs.Rbuf = uint32(r.Pick(65535, 65535, 20000, 9000))
+		cs.PeerSnd = 65535
+		cs.NilAck = cs.Rbuf == 65535 && r.Bool()
+		for i := r.Range(1, 2); i > 0; i-- {
+			cs.Later = append(cs.Later, [2]uint32{uint32(r.Pick(65535, 8192, 9000, 100000)), uint32(r.Pick(8192, 8192, 9000, 65535))})
+		}
+		rb = int(cs.Rbuf)
+		eff = rb
 	}
 	cfg := rb
 	rb = eff
 	nf := r.Pick(0, 1, 1, 2, 3, 4, 6)
+	if len(cs.Later) > 0 {
+		nf = r.Pick(1, 2, 3)
+	}
 	var frames [][]byte
 	var stream []byte
 	for i := 0; i < nf; i++ {
